@@ -50,7 +50,25 @@ int main(int argc, char** argv) {
                 const string t = d["type"].str();
                 MobilizedBody& P = mb[(int)d["parent"].num()];
                 const MobilizedBody::Direction dir = d["rev"].num() ? MobilizedBody::Reverse : MobilizedBody::Forward;
-                if (t == "pin") mb.push_back(MobilizedBody::Pin(P, XPF, body, XBM, dir));
+                if (d.has("fb") && d["fb"].num()) {
+                    // the same mobilizer through the user-defined route: FunctionBased with linear functions of the coordinates.
+                    // slots: x, y, z rotation (body-fixed sequence), x, y, z translation; slot -> coordinate index (or -1)
+                    int slot[6] = {-1, -1, -1, -1, -1, -1}; int nm = 0;
+                    if (t == "pin") { slot[2] = 0; nm = 1; } else if (t == "slider") { slot[3] = 0; nm = 1; }
+                    else if (t == "universal") { slot[0] = 0; slot[1] = 1; nm = 2; } else if (t == "cylinder") { slot[2] = 0; slot[5] = 1; nm = 2; }
+                    else if (t == "planar") { slot[2] = 0; slot[3] = 1; slot[4] = 2; nm = 3; } else if (t == "translation") { slot[3] = 0; slot[4] = 1; slot[5] = 2; nm = 3; }
+                    else if (t == "gimbal") { slot[0] = 0; slot[1] = 1; slot[2] = 2; nm = 3; }
+                    else if (t == "bushing") { for (int k = 0; k < 6; ++k) slot[k] = k; nm = 6; }
+                    else if (t == "euler5") { for (int k = 0; k < 5; ++k) slot[k] = k; nm = 5; }
+                    else throw std::runtime_error("no FunctionBased route for " + t);
+                    std::vector<const Function*> fn; std::vector<std::vector<int>> ci;
+                    for (int k = 0; k < 6; ++k) {
+                        if (slot[k] < 0) { fn.push_back(new Function::Constant(0, 0)); ci.push_back(std::vector<int>()); }
+                        else { Vector co(2); co[0] = 1; co[1] = 0; fn.push_back(new Function::Linear(co)); ci.push_back(std::vector<int>(1, slot[k])); }
+                    }
+                    mb.push_back(MobilizedBody::FunctionBased(P, XPF, body, XBM, nm, fn, ci, dir));
+                }
+                else if (t == "pin") mb.push_back(MobilizedBody::Pin(P, XPF, body, XBM, dir));
                 else if (t == "slider") mb.push_back(MobilizedBody::Slider(P, XPF, body, XBM, dir));
                 else if (t == "universal") mb.push_back(MobilizedBody::Universal(P, XPF, body, XBM, dir));
                 else if (t == "cylinder") mb.push_back(MobilizedBody::Cylinder(P, XPF, body, XBM, dir));
@@ -59,29 +77,33 @@ int main(int argc, char** argv) {
                 else if (t == "translation") mb.push_back(MobilizedBody::Translation(P, XPF, body, XBM, dir));
                 else if (t == "gimbal") mb.push_back(MobilizedBody::Gimbal(P, XPF, body, XBM, dir));
                 else if (t == "bushing") mb.push_back(MobilizedBody::Bushing(P, XPF, body, XBM, dir));
-                else if (t == "ball") mb.push_back(MobilizedBody::Ball(P, XPF, body, XBM, dir));
-                else if (t == "free") mb.push_back(MobilizedBody::Free(P, XPF, body, XBM, dir));
+                else if (t == "ball" || t == "balle") mb.push_back(MobilizedBody::Ball(P, XPF, body, XBM, dir));
+                else if (t == "free" || t == "freee") mb.push_back(MobilizedBody::Free(P, XPF, body, XBM, dir));
                 else if (t == "weld") mb.push_back(MobilizedBody::Weld(P, XPF, body, XBM));
                 else throw std::runtime_error("unknown mobilizer type " + t);
             }
             Force::DiscreteForces applied(forces, matter);
             system.realizeTopology();
             State s = system.getDefaultState();
+            if (c.has("euler") && c["euler"].num()) matter.setUseEulerAngles(s, true);
             system.realizeModel(s);
             // coordinate kinds per type: a = lattice angle, l = length, c = quaternion component
-            for (int i = 0; i < N; ++i) {
-                const string t = c["desc"][i]["type"].str();
-                const string kinds = t == "pin" ? "a" : t == "slider" ? "l" : t == "universal" ? "aa" : t == "cylinder" ? "al"
-                    : t == "bendstretch" ? "al" : t == "planar" ? "all" : t == "translation" ? "lll" : t == "gimbal" ? "aaa"
-                    : t == "bushing" ? "aaalll" : t == "ball" ? "cccc" : t == "free" ? "cccclll" : "";
-                if ((int)kinds.size() != mb[i + 1].getNumQ(s)) throw std::runtime_error("nq mismatch for " + t);
-                for (int k = 0; k < (int)kinds.size(); ++k) {
-                    const mj::Value& qk = c["q"][i][k];
-                    const double v = kinds[k] == 'a' ? angleOf(qk) : kinds[k] == 'l' ? qk["k"].dbl() : qk["k"].dbl() / std::pow(5.0, qk["m"].dbl());
-                    mb[i + 1].setOneQ(s, k, v);
+            auto setCoords = [&](State& st, const mj::Value& Q, const mj::Value& U) {
+                for (int i = 0; i < N; ++i) {
+                    const string t = c["desc"][i]["type"].str();
+                    const string kinds = t == "pin" ? "a" : t == "slider" ? "l" : t == "universal" ? "aa" : t == "cylinder" ? "al"
+                        : t == "bendstretch" ? "al" : t == "planar" ? "all" : t == "translation" ? "lll" : t == "gimbal" ? "aaa"
+                        : t == "euler5" ? "aaall" : t == "bushing" ? "aaalll" : t == "ball" ? "cccc" : t == "free" ? "cccclll" : t == "balle" ? "aaa" : t == "freee" ? "aaalll" : "";
+                    if ((int)kinds.size() != mb[i + 1].getNumQ(st)) throw std::runtime_error("nq mismatch for " + t);
+                    for (int k = 0; k < (int)kinds.size(); ++k) {
+                        const mj::Value& qk = Q[i][k];
+                        const double v = kinds[k] == 'a' ? angleOf(qk) : kinds[k] == 'l' ? qk["k"].dbl() : qk["k"].dbl() / std::pow(5.0, qk["m"].dbl());
+                        mb[i + 1].setOneQ(st, k, v);
+                    }
+                    for (int k = 0; k < mb[i + 1].getNumU(st); ++k) mb[i + 1].setOneU(st, k, U[i][k].dbl());
                 }
-                for (int k = 0; k < mb[i + 1].getNumU(s); ++k) mb[i + 1].setOneU(s, k, c["u"][i][k].dbl());
-            }
+            };
+            setCoords(s, c["q"], c["u"]);
             system.realize(s, Stage::Velocity);
             js << ",\"X\":[";
             for (int i = 1; i <= N; ++i) { const Transform& X = mb[i].getBodyTransform(s); js << (i > 1 ? "," : "") << "{\"R\":" << jm(X.R().asMat33()) << ",\"p\":" << jv(X.p()) << "}"; }
@@ -216,6 +238,16 @@ int main(int argc, char** argv) {
                     js << (i > 1 ? "," : "") << "{\"t\":" << jv(r[0]) << ",\"f\":" << jv(r[1]) << "}"; }
                 js << "],\"errFreebody\":" << num(errFb) << ",\"errFindReaction\":" << num(errFind);
             }
+            {   // the same state in the other orientation representation: poses and velocities must not change
+                State so;
+                if (c.has("euler") && c["euler"].num()) matter.convertToQuaternions(s, so); else matter.convertToEulerAngles(s, so);
+                system.realize(so, Stage::Velocity);
+                js << ",\"Xconv\":[";
+                for (int i = 1; i <= N; ++i) { const Transform& X = mb[i].getBodyTransform(so); js << (i > 1 ? "," : "") << "{\"R\":" << jm(X.R().asMat33()) << ",\"p\":" << jv(X.p()) << "}"; }
+                js << "],\"Vconv\":[";
+                for (int i = 1; i <= N; ++i) { const SpatialVec& V = mb[i].getBodyVelocity(so); js << (i > 1 ? "," : "") << "{\"w\":" << jv(V[0]) << ",\"v\":" << jv(V[1]) << "}"; }
+                js << "],\"convNQ\":" << so.getNQ();
+            }
             {   // multi-task station and frame Jacobians (repeated bodies and Ground allowed)
                 Array_<MobilizedBodyIndex> tb; Array_<Vec3> ts; const int nt = (int)c["tasks"].size();
                 Vector_<Vec3> tf(nt); Vector_<SpatialVec> tF(nt);
@@ -257,6 +289,11 @@ int main(int argc, char** argv) {
                     const mj::Value& f = c["fitTarget"][i - 1];
                     Mat33 Rm; for (int a = 0; a < 3; ++a) for (int b = 0; b < 3; ++b) Rm(a, b) = f["R"][a][b].dbl();
                     const Rotation R(Rm); const Vec3 p = vec(f["p"]), w = vec(f["w"]), v = vec(f["v"]);
+                    if (c["desc"][i - 1].has("fb") && c["desc"][i - 1]["fb"].num()) {   // fitting is not part of the user-defined route
+                        js << (i > 1 ? "," : "") << "{\"R1\":" << jm(R.asMat33()) << ",\"p1\":" << jv(p) << ",\"R2\":" << jm(R.asMat33()) << ",\"p2\":" << jv(p)
+                           << ",\"w1\":" << jv(w) << ",\"v1\":" << jv(v) << ",\"w2\":" << jv(w) << ",\"v2\":" << jv(v) << "}";
+                        continue;
+                    }
                     State s1 = s, s2 = s;
                     mb[i].setQToFitTransform(s1, Transform(R, p)); system.realize(s1, Stage::Position);
                     mb[i].setUToFitVelocity(s1, SpatialVec(w, v)); system.realize(s1, Stage::Velocity);
@@ -268,6 +305,42 @@ int main(int argc, char** argv) {
                        << ",\"w1\":" << jv(V1[0]) << ",\"v1\":" << jv(V1[1]) << ",\"w2\":" << jv(V2[0]) << ",\"v2\":" << jv(V2[1]) << "}";
                 }
                 js << "]";
+            }
+            {   // composite body inertias (about each body's origin, in Ground) at the first coordinate set
+                State sc = s; setCoords(sc, c["q"], c["u"]); system.realize(sc, Stage::Position);
+                Array_<SpatialInertia, MobilizedBodyIndex> CB; matter.calcCompositeBodyInertias(sc, CB);
+                js << ",\"comp\":[";
+                for (int i = 1; i <= N; ++i) { const SpatialInertia& S = CB[mb[i].getMobilizedBodyIndex()];
+                    js << (i > 1 ? "," : "") << "{\"mass\":" << num(S.getMass()) << ",\"mcom\":" << jv(S.getMass() * S.getMassCenter()) << ",\"I\":" << jm((S.getMass() * S.getUnitInertia()).toMat33()) << "}"; }
+                js << "]";
+            }
+            {   // the SAME State object moved to the second coordinate set, and back: nothing computed at the first
+                // configuration may survive
+                setCoords(s, c["q2"], c["u2"]); system.realize(s, Stage::Velocity);
+                js << ",\"X2\":[";
+                for (int i = 1; i <= N; ++i) { const Transform& X = mb[i].getBodyTransform(s); js << (i > 1 ? "," : "") << "{\"R\":" << jm(X.R().asMat33()) << ",\"p\":" << jv(X.p()) << "}"; }
+                js << "],\"V2\":[";
+                for (int i = 1; i <= N; ++i) { const SpatialVec& V = mb[i].getBodyVelocity(s); js << (i > 1 ? "," : "") << "{\"w\":" << jv(V[0]) << ",\"v\":" << jv(V[1]) << "}"; }
+                Vector_<SpatialVec> Ju2; matter.multiplyBySystemJacobian(s, s.getU(), Ju2);
+                double e2 = 0; for (int i = 1; i <= N; ++i) { const SpatialVec d = Ju2[mb[i].getMobilizedBodyIndex()] - mb[i].getBodyVelocity(s); e2 = std::max(e2, std::max(d[0].norm(), d[1].norm())); }
+                js << "],\"errJ2\":" << num(e2);
+                setCoords(s, c["q"], c["u"]); system.realize(s, Stage::Velocity);
+                js << ",\"X3\":[";
+                for (int i = 1; i <= N; ++i) { const Transform& X = mb[i].getBodyTransform(s); js << (i > 1 ? "," : "") << "{\"R\":" << jm(X.R().asMat33()) << ",\"p\":" << jv(X.p()) << "}"; }
+                js << "],\"V3\":[";
+                for (int i = 1; i <= N; ++i) { const SpatialVec& V = mb[i].getBodyVelocity(s); js << (i > 1 ? "," : "") << "{\"w\":" << jv(V[0]) << ",\"v\":" << jv(V[1]) << "}"; }
+                js << "]";
+                // two configurations in a row brought up to date through the lazy route only
+                // (realize(Instance) + realizePositionKinematics + realizeVelocityKinematics), on the same State object
+                for (int pass = 0; pass < 2; ++pass) {
+                    setCoords(s, pass ? c["q"] : c["q2"], pass ? c["u"] : c["u2"]); system.realize(s, Stage::Instance);
+                    matter.realizePositionKinematics(s); matter.realizeVelocityKinematics(s);
+                    js << (pass ? ",\"X4\":[" : ",\"X5\":[");
+                    for (int i = 1; i <= N; ++i) { const Transform& X = mb[i].getBodyTransform(s); js << (i > 1 ? "," : "") << "{\"R\":" << jm(X.R().asMat33()) << ",\"p\":" << jv(X.p()) << "}"; }
+                    js << (pass ? "],\"V4\":[" : "],\"V5\":[");
+                    for (int i = 1; i <= N; ++i) { const SpatialVec& V = mb[i].getBodyVelocity(s); js << (i > 1 ? "," : "") << "{\"w\":" << jv(V[0]) << ",\"v\":" << jv(V[1]) << "}"; }
+                    js << "]";
+                }
             }
             js << ",\"exc\":\"\"}";
         } catch (const std::exception& e) { js << ",\"exc\":" << mj::quote(string(e.what()).substr(0, 200)) << "}"; }
